@@ -135,6 +135,16 @@ def make_array(kind, rows, names):
     if kind == "np2":
         return vector.array({nm: numpy.array([r[i] for r in rows]).reshape(2, n // 2) for i, nm in enumerate(names)})
     recs = [dict(zip(names, r)) for r in rows]
+    if kind == "akraw":
+        # records named by ak.with_name whose fields keep the user's own spelling (vector.Array would rename them):
+        # every synonym of the temporal coordinate in turn
+        momentum = any(nm in ("px", "py", "pt", "pz", "E", "mass") for nm in names)
+        k = RAW_COUNTER[0] = RAW_COUNTER[0] + 1
+        alt = {"E": ["E", "e", "energy"][k % 3], "mass": ["mass", "M", "m"][k % 3]}
+        cols = {alt.get(nm, nm): numpy.array([r[i] for r in rows], dtype=float) for i, nm in enumerate(names)}
+        dim = len(names)
+        arr = ak.zip(cols, with_name=("Momentum" if momentum else "Vector") + f"{dim}D")
+        return ak.Array(arr, behavior=vector.backends.awkward.behavior)
     if kind == "akflat":
         return vector.Array(recs)
     if kind == "akjag":
@@ -148,6 +158,9 @@ def make_array(kind, rows, names):
                 lst.append(None)
         return vector.Array(ak.Array(lst))
     raise KeyError(kind)
+
+
+RAW_COUNTER = [0]
 
 
 class NotIntegral(Exception):
@@ -176,7 +189,7 @@ def param_array(kind, vals, n):
         return ak.Array(a)
     if kind == "np2":
         return a.reshape(2, n // 2)
-    if kind == "akflat":
+    if kind in ("akflat", "akraw"):
         return ak.Array(a)
     if kind == "akjag":
         return ak.unflatten(ak.Array(a), jag_counts(n))
@@ -198,7 +211,7 @@ def flat_result(kind, out, rk, n):
     problems = []
     if kind == "np1int":
         kind = "np1"
-    if kind == "akflatint":
+    if kind in ("akflatint", "akraw"):
         kind = "akflat"
     if kind in ("np1", "np2") and isinstance(out, ak.Array):
         # NumPy array combined with an Awkward record: the result is an Awkward array of the same shape
@@ -212,7 +225,7 @@ def flat_result(kind, out, rk, n):
                 return None, ["Awkward result has no vector behavior"]
             sig = coords.sig_of(out)
             names = coords.field_names(sig)
-            return [(sig, [float(d[nm]) for nm in names]) for d in lst], problems
+            return [(sig, [float(getf(d, nm)) for nm in names]) for d in lst], problems
         return lst, problems
     if kind in ("np1", "np2"):
         want_shape = (n,) if kind == "np1" else (2, n // 2)
@@ -255,8 +268,20 @@ def flat_result(kind, out, rk, n):
             return None, ["Awkward result has no vector behavior"]
         sig = coords.sig_of(out)
         names = coords.field_names(sig)
-        return [(sig, [float(d[nm]) for nm in names]) for d in lst], problems
+        return [(sig, [float(getf(d, nm)) for nm in names]) for d in lst], problems
     return lst, problems
+
+
+FIELD_SPELLINGS = {"x": ["x", "px"], "y": ["y", "py"], "rho": ["rho", "pt"], "phi": ["phi"], "z": ["z", "pz"], "theta": ["theta"], "eta": ["eta"],
+                   "t": ["t", "E", "e", "energy"], "tau": ["tau", "M", "m", "mass"]}
+
+
+def getf(d, nm):
+    """A coordinate of a record under whichever spelling the array carries it."""
+    for k in FIELD_SPELLINGS[nm]:
+        if k in d:
+            return d[k]
+    raise KeyError(nm)
 
 
 def compare(rk, got, ref, scale):
@@ -304,7 +329,7 @@ def ref_value(rk, out):
     return float(out)
 
 
-LAYOUTS = ["np1", "np2", "akflat", "akjag", "akopt"]
+LAYOUTS = ["np1", "np2", "akflat", "akjag", "akopt", "akraw"]
 INT_LAYOUTS = ["np1int", "akflatint"]
 # how the second vector operand is supplied: same layout array, single object, single Awkward record
 B_FORMS = ["array", "object", "record", "numpy-for-awkward"]
@@ -404,7 +429,7 @@ def run_group(key, cases, full, only_int=False):
                             if bform == "array":
                                 B = make_array(layout, stored_rows(vb, sb), namesb)
                             elif bform == "numpy-for-awkward":
-                                if layout not in ("akflat", "akflatint"):
+                                if layout not in ("akflat", "akflatint", "akraw"):
                                     continue
                                 B = make_array("np1", stored_rows(vb, sb), namesb)
                             else:
@@ -433,7 +458,13 @@ def run_group(key, cases, full, only_int=False):
                     except Exception as ex:
                         recs.append(dict(base, kind="exception", error=f"{type(ex).__name__}: {ex}"[:300]))
                         continue
-                    flat, problems = flat_result(layout, out, rk, n)
+                    try:
+                        flat, problems = flat_result(layout, out, rk, n)
+                    except Exception as ex:
+                        # the result does not have the fields its own coordinate system announces
+                        recs.append(dict(base, kind="result-inconsistent-with-its-own-coordinate-system", error=f"{type(ex).__name__}: {ex}"[:200],
+                                         got=repr(out)[:200]))
+                        continue
                     for pb in problems:
                         recs.append(dict(base, kind="structure-not-preserved", got=pb))
                     if flat is None or len(flat) != n:
@@ -458,7 +489,11 @@ def worker(args):
     groups, full = args
     out = {"records": [], "calls": 0, "elements": 0, "groups": 0}
     for key, cases in groups:
-        r, c, n = run_group(key, cases, full)
+        try:
+            r, c, n = run_group(key, cases, full)
+        except Exception as ex:
+            from . import common as _c
+            r, c, n = [_c.crash_record(json.loads(key)[0], ex, group=key)], 0, 0
         out["records"] += r
         out["calls"] += c
         out["elements"] += n * c
